@@ -4,7 +4,6 @@
 #include "prog.hpp"
 #include "props.hpp"
 #include <sys/mman.h>
-extern "C" struct alw_ctl alw __attribute__((weak));
 
 using namespace prog;
 
@@ -48,6 +47,7 @@ static BV check07(const Pool &P, const C07Case &c) {
   BV v; auto bad = [&](const std::string &s, const std::string &d) { v.ok = false; v.symptom = s; v.detail = d; return v; };
   static Arena arena;
   const int n = c.n; uint8_t *buf = arena.place(n, c.at_end);
+  al::heap_fill((unsigned)(c.n + c.cmds.size() * 3));
   assemblyline_t a = asm_create_instance(buf, n);
   if (!a) return bad("create", "asm_create_instance returned NULL for an external buffer");
   size_t chunk = 1; bool fitting = false; int combo_mov = 2, combo_swap = 1, combo_nb = 1; (void)combo_mov; (void)combo_swap; (void)combo_nb;
@@ -162,7 +162,7 @@ static GV check08(const Pool &P, const C08Case &c) {
     std::vector<std::string> head, body; long long hl = 0, bl = 0; int nh = (int)(c.seed % 7); for (int i = 0; i < nh; i++) { const std::string &l = src[r.below(src.size())]; head.push_back(l); hl += solo(l, c.combo).size(); }
     while (bl < 200 + (long long)(c.seed % 5) * 1700) { const std::string &l = src[r.below(src.size())]; body.push_back(l); bl += solo(l, c.combo).size(); }
     size_t N = (size_t)c.chunkv + bl + 4096; std::vector<uint8_t> ext(N, 0xcc);
-    assemblyline_t in = asm_create_instance(nullptr, 0), ex = asm_create_instance(ext.data(), (int)N); if (!in) { asm_destroy_instance(ex); return bad("create", "asm_create_instance(NULL, 0) returned NULL"); }
+    al::heap_fill((unsigned)(c.seed + 1)); assemblyline_t ex = asm_create_instance(ext.data(), (int)N); al::heap_fill((unsigned)c.seed); assemblyline_t in = asm_create_instance(nullptr, 0); if (!in) { asm_destroy_instance(ex); return bad("create", "asm_create_instance(NULL, 0) returned NULL"); }
     al::apply_opts(in, combo_opts(c.combo)); al::apply_opts(ex, combo_opts(c.combo)); if (c.mode == 1) { asm_set_chunk_size(in, CHUNKS7[c.cidx % 13]); asm_set_chunk_size(ex, CHUNKS7[c.cidx % 13]); }
     std::string ht = join(head), bt = join(body); int ri = 0, re = 0;
     if (!head.empty()) { ri = asm_assemble_str(in, ht.c_str()); re = asm_assemble_str(ex, ht.c_str()); }
@@ -184,7 +184,7 @@ static GV check08(const Pool &P, const C08Case &c) {
   // split into calls at line boundaries
   std::vector<size_t> cuts; for (int i = 1; i < c.ncalls; i++) cuts.push_back(1 + r.below(lines.size() - 1)); if (c.split_tail) cuts.push_back(lines.size() - 2); std::sort(cuts.begin(), cuts.end()); cuts.push_back(lines.size());
   size_t N = 1 << 20; std::vector<uint8_t> ext(N, 0xcc);
-  assemblyline_t in = asm_create_instance(nullptr, 0), ex = asm_create_instance(ext.data(), (int)N);
+  al::heap_fill((unsigned)(c.seed + 1)); assemblyline_t ex = asm_create_instance(ext.data(), (int)N); al::heap_fill((unsigned)c.seed); assemblyline_t in = asm_create_instance(nullptr, 0);
   if (!in) { asm_destroy_instance(ex); return bad("create", "asm_create_instance(NULL, 0) returned NULL"); }
   al::apply_opts(in, combo_opts(c.combo)); al::apply_opts(ex, combo_opts(c.combo));
   int cs = c.chunkv >= 0 ? c.chunkv : CHUNKS7[c.cidx % 13]; if (c.mode == 1) { asm_set_chunk_size(in, cs); asm_set_chunk_size(ex, cs); }
